@@ -186,7 +186,7 @@ PROFILES["C05"] = Profile(
     ],
     evidence_extra=c05_evidence_extra, pre=c05_pre,
     step_slots=lambda s: [s[k] for k in ("t", "s", "a", "b") if k in s and s["op"] not in ("eps", "delta")]
-    + [x for e in s.get("edges", []) for x in e],
+    + [x for e in s.get("edges", []) for x in e] + [x for o in s.get("ops", []) for x in o[1:]],
 )
 
 
